@@ -923,6 +923,44 @@ def reentrant_in_flight(s):
     s.do(R(E(H, {"k": "remove_bucket", "id": 2}), prog2), "hostile")
 
 
+def reentrant_depth_two(s):
+    """Re-entrancy nested two and three levels deep (model/ReentryDeep.v, the scenario of C01_deep_reentry_hyps_met): the hostile
+    contract withdraws bucket 1, is handed its own token, withdraws bucket 2, is handed *that* token, and opens a bucket that it
+    can only afford because both payouts have arrived; a nested call whose own nested call fails; a nested call that is not
+    re-entered leaves nothing armed for its sibling or for the outer dispatch; the outer transaction failing afterwards."""
+    H = HOSTILE
+    s.do({"t": "bank_send", "user": "usr3", "to": H, "coins": [["uatom", 500]]}, "valid")
+    def two_buckets():
+        s.do(E(H, {"k": "create_bucket", "id": 1}, [["uatom", 100]]), "hostile")
+        s.do(E(H, {"k": "receive", "sender": H, "amount": 5, "inner": {"k": "add_to_bucket_cw20", "id": 1}}), "hostile")
+        s.do(E(H, {"k": "create_bucket", "id": 2}, [["uatom", 50]]), "hostile")
+        s.do(E(H, {"k": "receive", "sender": H, "amount": 3, "inner": {"k": "add_to_bucket_cw20", "id": 2}}), "hostile")
+    two_buckets()
+    # 350 left; 490 is affordable only after 100 + 50 have come back
+    deep = [R(E(H, {"k": "remove_bucket", "id": 2}), [E(H, {"k": "create_bucket", "id": 4}, [["uatom", 490]])])]
+    # first with the outer token transfer failing after everything: all of it is undone
+    with_faults(s, R(E(H, {"k": "remove_bucket", "id": 1}), deep))
+    s.do(E(H, {"k": "remove_bucket", "id": 4}), "hostile")
+    # three levels; the innermost call is refused (bucket 2 is gone by then) and a sibling follows it
+    s.do(E(H, {"k": "create_bucket", "id": 5}, [["uatom", 100]]), "hostile")
+    s.do(E(H, {"k": "receive", "sender": H, "amount": 5, "inner": {"k": "add_to_bucket_cw20", "id": 5}}), "hostile")
+    s.do(E(H, {"k": "create_bucket", "id": 6}, [["uatom", 50]]), "hostile")
+    s.do(E(H, {"k": "receive", "sender": H, "amount": 3, "inner": {"k": "add_to_bucket_cw20", "id": 6}}), "hostile")
+    s.do(E(H, {"k": "create_bucket", "id": 7}, [["uatom", 20]]), "hostile")
+    s.do(E(H, {"k": "receive", "sender": H, "amount": 1, "inner": {"k": "add_to_bucket_cw20", "id": 7}}), "hostile")
+    l3 = [R(E(H, {"k": "remove_bucket", "id": 7}), [E(H, {"k": "remove_bucket", "id": 6}),            # refused: being withdrawn / gone
+                                                     E(H, {"k": "create_bucket", "id": 8}, [["uatom", 400]])]),
+          E(H, {"k": "create_bucket", "id": 9}, [["uatom", 10]])]
+    l2 = [R(E(H, {"k": "remove_bucket", "id": 6}), l3),
+          R(E(H, {"k": "create_bucket", "id": 10}, [["uatom", 1]]), [E(H, {"k": "create_bucket", "id": 11}, [["uatom", 1]])])]   # never re-entered: its program must not run later
+    s.do(R(E(H, {"k": "remove_bucket", "id": 5}), l2), "hostile")
+    # a program armed for a call that is not re-entered must not fire in a later, plain transaction either
+    s.do(E(H, {"k": "remove_bucket", "id": 8}), "hostile")
+    s.do(E(H, {"k": "remove_bucket", "id": 9}), "hostile")
+    s.do(E(H, {"k": "remove_bucket", "id": 10}), "hostile")
+    s.do(E(H, {"k": "remove_bucket", "id": 11}), "hostile")      # refused: never created
+
+
 def royalty_many_collections_cfg():
     return world.default_cfg(n_cw20=1, n_cw721=25, hostile=False, tokens_per_coll=3)
 
@@ -1215,6 +1253,7 @@ SCRIPTS = {
     "reentrant_withdrawal": (world.default_cfg, reentrant_withdrawal, ("reentrant",)),
     "reentrant_royalty": (world.default_cfg, reentrant_royalty, ("reentrant",)),
     "reentrant_in_flight": (world.default_cfg, reentrant_in_flight, ("reentrant",)),
+    "reentrant_depth_two": (world.default_cfg, reentrant_depth_two, ("reentrant",)),
     "long_lived_listings": (world.default_cfg, long_lived_listings, ()),
     "market_order": (world.default_cfg, market_order, ()),
     "big_amounts": (big_amounts_cfg, big_amounts, ()),
